@@ -277,7 +277,19 @@ func runServerStop(transport, order string, nClients int) SrvRec {
 		}
 		wg.Wait()
 	}
-	if order == "stop-first" {
+	if order == "listener-first" {
+		// the server is not stopped: its listener is closed under it (the application closes the socket it handed to Serve, or the
+		// read fails): Serve ends and everything ends with it, exactly as after Stop
+		closeL()
+		select {
+		case <-served:
+			r.Served = true
+		case <-time.After(wd):
+		}
+		r.SelfClosed = collect(300 * time.Millisecond)
+		closeClients()
+		defer stop() // (only after everything has been looked at: Stop would tear down what the end of Serve has to)
+	} else if order == "stop-first" {
 		stopAll()
 		select {
 		case <-served:
@@ -779,7 +791,7 @@ func RunServers(out string, rounds int) {
 		w.Put(runStopEarly("tls", "handshake"))
 		w.Put(runStopEarly("tcp", "hook"))
 		for _, tr := range []string{"udp", "tcp", "dtls", "tls"} {
-			for _, order := range []string{"stop-first", "clients-first"} {
+			for _, order := range []string{"stop-first", "clients-first", "listener-first"} {
 				w.Put(runServerStop(tr, order, 1+round%3))
 			}
 		}
